@@ -58,12 +58,10 @@ TRUSTED = [
 ASSUMPTIONS = [
     "an Info is modelled by its time field; grid/units compatibility is C07",
     "payload tokens: output o publishes the value 10+o",
-    "PARTIAL: C06_fixpoint_full (final done-set = least fixed point of the derivation rules; acyclic => Success; "
-    "stall set = owners of underivable items) is stated in coq/properties/C06.v but NOT proved; proved instead: "
-    "C06_fixpoint_partial + C06_stuck_idx_exact (Success => every declared item done; Circular L => L = exactly the "
-    "positions, in list order, of the components with an outstanding declared item).  The least-fixed-point "
-    "characterisation is checked against the real finam on every generated case by the Python monitor (lfp)",
-    "the full statement needs every slot owned by exactly one component (wf_setup)",
+    "C06_fixpoint_full (final done-set = least fixed point of the derivation rules; all derivable => Success; stall "
+    "set = owners of underivable items) is proved for well-formed setups: every slot owned by exactly one component and "
+    "sp_ins = the owned inputs (wf_setup); the Python monitor computes the same least fixed point from the spec and "
+    "compares it with the real finam on every case",
     "findings F19 (cache=False skipped transfer rules every second call -> false circular-coupling error) and F20 "
     "(_check_times compared the unset time of a static slot) are fixed in /repo (98cb380, 2216e00); their witnesses "
     "are in CORPUS and such setups are part of the default stream",
